@@ -424,6 +424,7 @@ def inline_new(F, f, transparent=None):
                 nb = _renum(gb, loff, boff, poff)
                 nb["file"] = gf["file"]
                 nb["inl"] = g
+                nb["inl_line"] = b.get("inl_line") or (sp[0] if sp else None)     # line of the OUTERMOST call this code was inlined at
                 if nb["term"]["k"] == "return" and not nb.get("cleanup"):
                     nb["stmts"].append({"k": "assign", "p": copy.deepcopy(dest), "rv": {"k": "use", "op": {"c": "move", "p": {"l": loff, "pr": []}}},
                                         "sp": nb["term"].get("sp"), "inl_ret": g})
